@@ -600,6 +600,14 @@ class ExperimentPackage(StorageStructurePathResolver):
                     sourceFolder, method = sourceFolder.rsplit(':', 1)
                     target_folder_path = os.path.join(targetPath, targetFolder)
 
+                    # VV: A parent of the target may be a link which an earlier manifest entry created
+                    # (e.g. `data: /some/path:link` followed by `data/sub: ...:copy`), do not populate it
+                    resolved_parent = os.path.realpath(os.path.dirname(os.path.normpath(target_folder_path)))
+                    resolved_root = os.path.realpath(targetPath)
+                    if os.path.commonpath([resolved_root, resolved_parent]) != resolved_root:
+                        raise ValueError("Manifest entry %s (%s) resolves to %s which is outside the instance directory" % (
+                            targetFolder, sourceFolder, resolved_parent))
+
                     if method == 'copy':
                         logger.info("Copying %s to %s" % (sourceFolder, targetFolder))
                         shutil.copytree(sourceFolder, target_folder_path)
